@@ -236,6 +236,104 @@ def hyp_collect(acc, strategy, check, seed, max_examples, shrink=False, rounds=4
 
 
 # ---------------------------------------------------------------------------------------------
+# coverage-guided campaigns (atheris / libFuzzer) - see hv/fuzzworker.py
+
+def ensure_atheris():
+    """atheris for /venv's interpreter lives in <verif>/.deps (installed from the offline wheelhouse when missing)"""
+    import subprocess
+    deps = os.path.join(VERIF_DIR, '.deps')
+    if not os.path.isdir(os.path.join(deps, 'atheris')):
+        p = subprocess.run([sys.executable, '-m', 'pip', 'install', '-q', '--no-index', '--find-links', '/opt/veriftools/wheels',
+                            '--target', deps, 'atheris'], stdout=subprocess.PIPE, stderr=subprocess.STDOUT, env=dict(os.environ, PIP_NO_INDEX='1'))
+        if p.returncode != 0 and not os.path.isdir(os.path.join(deps, 'atheris')):
+            raise HarnessError('atheris could not be installed offline: %s' % p.stdout.decode('utf8', 'replace')[-300:])
+    return deps
+
+
+def ddmin_text(text, still_fails, budget=1500):
+    """delta debugging on a string: smallest text (by removing chunks) for which still_fails(text) holds; bounded by `budget` calls"""
+    calls = [0]
+
+    def test(t):
+        calls[0] += 1
+        return calls[0] <= budget and still_fails(t)
+    n = 2
+    while len(text) >= 2 and calls[0] < budget:
+        chunk = max(len(text) // n, 1)
+        reduced = False
+        for i in range(0, len(text), chunk):
+            cand = text[:i] + text[i + chunk:]
+            if test(cand):
+                text, n, reduced = cand, max(n - 1, 2), True
+                break
+        if not reduced:
+            if chunk == 1:
+                break
+            n = min(n * 2, len(text))
+    return text
+
+
+def run_fuzz(acc, target, corpus, seed, runs, max_len, check, decode, label, dictionary=()):
+    """one libFuzzer campaign in a child process; corpus: list of bytes (may be empty).  Every violation signature found is
+    minimised (ddmin on the text, same signature) and recorded through acc like any other violation."""
+    import shutil
+    import subprocess
+    import tempfile
+    deps = ensure_atheris()
+    work = tempfile.mkdtemp(prefix='hv-fuzz-', dir='/var/tmp')
+    try:
+        cdir = os.path.join(work, 'corpus')
+        os.mkdir(cdir)
+        for i, b in enumerate(corpus):
+            with open(os.path.join(cdir, 'seed-%04d' % i), 'wb') as f:
+                f.write(b)
+        out = os.path.join(work, 'out.json')
+        extra = []
+        if dictionary:
+            with open(os.path.join(work, 'tokens.dict'), 'w') as f:
+                for tok in dictionary:
+                    f.write('"%s"\n' % ''.join(c if (32 <= ord(c) < 127 and c not in '"\\') else '\\x%02x' % ord(c) for c in tok))
+            extra = ['-dict=' + os.path.join(work, 'tokens.dict')]
+        env = dict(os.environ, PYTHONPATH=deps + os.pathsep + VERIF_DIR, PYTHONHASHSEED='0')
+        p = subprocess.run([sys.executable, '-m', 'hv.fuzzworker', target, REPO, out, cdir, '-runs=%d' % runs, '-seed=%d' % (seed or 1),
+                            '-max_len=%d' % max_len, '-timeout=120', '-rss_limit_mb=4096', '-print_final_stats=0', '-verbosity=0'] + extra,
+                           cwd=VERIF_DIR, env=env, stdout=subprocess.PIPE, stderr=subprocess.STDOUT)
+        if not os.path.exists(out):
+            raise HarnessError('fuzz worker produced nothing: %s' % p.stdout.decode('utf8', 'replace')[-500:])
+        res = json.load(open(out))
+        if p.returncode != 0:
+            # libFuzzer's own stop conditions (timeout of one input, out of memory, a crash of the interpreter)
+            tail = p.stdout.decode('utf8', 'replace')[-600:]
+            if 'HARNESS-ERROR' in tail or res['execs'] == 0:
+                raise HarnessError('fuzz worker failed: %s' % tail)
+            acc.inconclusive += 1
+            acc.extra['fuzz:campaign-ended-early(exit %d)' % p.returncode] += 1
+    finally:
+        shutil.rmtree(work, ignore_errors=True)
+    acc.evaluations += res['execs']
+    acc.nontrivial_enum += res['distinct_nontrivial']
+    acc.classes[label] += res['execs']
+    acc.extra['fuzz:execs'] += res['execs']
+    acc.extra['fuzz:seed-corpus-inputs'] += len(corpus)
+    for s in res['samples'][:2]:
+        if len(acc.samples) < acc.MAX_SAMPLES:
+            acc.samples.append(s)
+    for sig, ent in sorted(res['violations'].items()):
+        case = ent['case']
+        if not acc.is_known(sig):
+            def still(t, case=case, sig=sig):
+                return any(s2 == sig for s2, _ in check(dict(case, text=t)))
+            case = dict(case, text=ddmin_text(case['text'], still))
+        detail = ent['detail']
+        for s2, d2 in check(case):
+            if s2 == sig:
+                detail = d2
+        for _ in range(ent['count']):
+            acc.violation(sig, case, detail)
+    return res
+
+
+# ---------------------------------------------------------------------------------------------
 # sharded execution
 
 def _run_one(args):
